@@ -16,10 +16,16 @@
 package main
 
 import (
+	"bytes"
+	"context"
+	"errors"
 	"fmt"
 	"io"
 	"log"
 	"os"
+	"os/exec"
+	"path/filepath"
+	"regexp"
 	"sort"
 	"strings"
 	"time"
@@ -79,12 +85,137 @@ func caseLine(name string, r *histResult) string {
 	return fmt.Sprintf("%s HIST log=%s final=%s smcheck=%s mon=%s nev=%d | %s", name, logs, final, smc, mon, len(parts), strings.Join(parts, " ; "))
 }
 
-func gen(a vh.Args) {
-	n := 4
+// histConfig is the configuration of history i of a run: everything is derived
+// from the seed and the index.
+func histConfig(a vh.Args, i int) histCfg {
 	dur := 2500 * time.Millisecond
 	if a.Tier == "thorough" {
-		n = 40
 		dur = 8 * time.Second
+	}
+	seed := a.Seed*1000 + uint64(i)
+	r := subRand(seed, 1)
+	cfg := histCfg{
+		name:      fmt.Sprintf("h%d_%d", a.Seed, i),
+		seed:      seed,
+		clients:   4 + r.Intn(5),
+		keys:      2 + r.Intn(3),
+		duration:  dur,
+		nonVoting: i%2 == 1,
+		restart:   i%4 != 3,
+		faults:    true,
+		snapEvery: []uint64{0, 25, 60, 15}[i%4],
+		// without CheckQuorum an isolated leader keeps its role: only the
+		// heartbeat-quorum round of ReadIndex protects reads there
+		checkQuorum: i%2 == 1,
+		// a replica that is slow to apply (three histories of four) and the
+		// concurrent kind of state machine (every other history): reads served by
+		// the slow replica have to wait for the entries their read index covers
+		concurrent: (i/2)%2 == 0,
+		slowDwell:  time.Duration(2+r.Intn(6)) * time.Millisecond,
+	}
+	if i%4 != 1 {
+		cfg.slowReplica = uint64(1 + r.Intn(3))
+	}
+	// the glue-code dimensions. The first four histories cover each of them at
+	// least once (the first two together: NotifyCommit, sessions, on-disk +
+	// streaming - that pair is what the sub-check R01 runs); later histories
+	// (thorough tier) draw them independently.
+	switch {
+	case i == 0: // concurrent state machine
+		cfg.notifyCommit, cfg.sessions, cfg.queryLog = true, true, true
+	case i == 1: // on-disk state machine, the non-voting replica joins late: streamed snapshot
+		cfg.onDisk, cfg.concurrent, cfg.lateJoin = true, false, true
+		cfg.snapEvery = 20
+		cfg.snapshotOps = true
+	case i == 2: // regular state machine, membership changes through the API
+		cfg.membership, cfg.sessions, cfg.snapshotOps = true, true, true
+	case i == 3: // regular state machine, non-voting replica from the start, no restart
+		cfg.quiesce, cfg.notifyCommit, cfg.queryLog = true, true, true
+	default:
+		d := subRand(seed, 2)
+		cfg.onDisk = d.Chance(1, 3)
+		if cfg.onDisk {
+			cfg.concurrent = false
+			if cfg.snapEvery == 0 {
+				cfg.snapEvery = 20
+			}
+		}
+		cfg.notifyCommit = d.Bool()
+		cfg.sessions = !cfg.onDisk && d.Bool()
+		cfg.lateJoin = d.Bool()
+		cfg.membership = d.Chance(1, 3)
+		cfg.snapshotOps = d.Bool()
+		cfg.queryLog = d.Bool()
+		cfg.quiesce = d.Chance(1, 4)
+	}
+	if cfg.quiesce {
+		cfg.duration += 500 * time.Millisecond // the idle period
+	}
+	// about 350 operations per history in the quick tier, 2000 in thorough
+	target := 350
+	if a.Tier == "thorough" {
+		target = 2000
+	}
+	cfg.paceMs = int(dur/time.Millisecond) * cfg.clients / target
+	if cfg.paceMs > 8 {
+		cfg.paceMs -= 8 // an operation itself takes a few ms
+	}
+	return cfg
+}
+
+// Panics the library raises when it detects that one of the monitored properties
+// is broken (agreement on committed entries, gap-free in-order apply, at most one
+// application of a session series, exactly one truthful result per request,
+// snapshot / on-disk index consistency): a history that dies of one of these is
+// reported as a violation. Any other panic on a library goroutine is recorded as
+// "library-panic" and the history is skipped.
+var monitoredPanic = regexp.MustCompile(`conflicts with committed|committed entries being changed|committed value moving backwards|` +
+	`index gap found|gap between batches|applied index \d+, new index|applied term|term moving backward|alignment error|` +
+	`already has response|duplicated response|committed entry (dropped|aborted)|applied entry dropped|notified twice|` +
+	`CompletedC is full|committedC is full|request(Aborted|Committed) sent to CompletedC|same system ctx added again|` +
+	`multiple uncommitted config change|out of date snapshot|OnDiskIndex|OnDiskInit|on disk index|init on disk|` +
+	`invalid (commitTo|last applied|ApplyReturnedTo)`)
+
+// classifyDeath reads what a history child wrote to stderr.
+// kind: "panic" (library goroutine), "harness" (panic in the harness' own code),
+// "error" (the history could not be run: no leader elected in time, ...), "killed".
+func classifyDeath(stderr string) (kind string, first string) {
+	lines := strings.Split(stderr, "\n")
+	for k, l := range lines {
+		if !strings.HasPrefix(l, "panic: ") && !strings.HasPrefix(l, "fatal error: ") {
+			continue
+		}
+		first = strings.TrimSpace(l)
+		kind = "panic"
+		// the first frame that is not the panic machinery or the logger decides
+		for _, f := range lines[k+1:] {
+			f = strings.TrimSpace(f)
+			if f == "" || strings.HasPrefix(f, "goroutine ") || strings.HasPrefix(f, "/") || strings.HasPrefix(f, "panic(") ||
+				strings.HasPrefix(f, "runtime.") || strings.HasPrefix(f, "main.quietLogger.Panicf") || strings.HasPrefix(f, "main.testPanic") || strings.HasPrefix(f, "created by ") || strings.Contains(f, "logger.(*dragonboatLogger).Panicf") ||
+				strings.HasPrefix(f, "[signal ") {
+				continue
+			}
+			if strings.HasPrefix(f, "main.") {
+				kind = "harness"
+			}
+			break
+		}
+		return kind, first
+	}
+	for _, l := range lines {
+		if strings.HasPrefix(l, "c01 gen: ") {
+			return "error", strings.TrimSpace(l)
+		}
+	}
+	return "killed", ""
+}
+
+// gen runs every history in a child process of its own: a panic on a goroutine of
+// the library (which cannot be recovered from) ends that history only.
+func gen(a vh.Args) {
+	n := 4
+	if a.Tier == "thorough" {
+		n = 40
 	}
 	if a.N > 0 {
 		n = a.N
@@ -93,84 +224,97 @@ func gen(a vh.Args) {
 	defer w.Close()
 	info := vh.Create(a.Out + "/gen_info.txt")
 	defer info.Close()
-	for i := 0; i < n; i++ {
-		seed := a.Seed*1000 + uint64(i)
-		r := subRand(seed, 1)
-		cfg := histCfg{
-			name:      fmt.Sprintf("h%d_%d", a.Seed, i),
-			seed:      seed,
-			clients:   4 + r.Intn(5),
-			keys:      2 + r.Intn(3),
-			duration:  dur,
-			nonVoting: i%2 == 1,
-			restart:   i%4 != 3,
-			faults:    true,
-			snapEvery: []uint64{0, 25, 60, 15}[i%4],
-			// without CheckQuorum an isolated leader keeps its role: only the
-			// heartbeat-quorum round of ReadIndex protects reads there
-			checkQuorum: i%2 == 1,
-			// a replica that is slow to apply (three histories of four) and the
-			// concurrent kind of state machine (every other history): reads served by
-			// the slow replica have to wait for the entries their read index covers
-			concurrent: (i/2)%2 == 0,
-			slowDwell:  time.Duration(2+r.Intn(6)) * time.Millisecond,
-		}
-		if i%4 != 1 {
-			cfg.slowReplica = uint64(1 + r.Intn(3))
-		}
-		// the glue-code dimensions. The first four histories cover each of them at
-		// least once (the first two together: NotifyCommit, sessions, on-disk +
-		// streaming - that pair is what the sub-check R01 runs); later histories
-		// (thorough tier) draw them independently.
-		switch {
-		case i == 0: // concurrent state machine
-			cfg.notifyCommit, cfg.sessions, cfg.queryLog = true, true, true
-		case i == 1: // on-disk state machine, the non-voting replica joins late: streamed snapshot
-			cfg.onDisk, cfg.concurrent, cfg.lateJoin = true, false, true
-			cfg.snapEvery = 20
-			cfg.snapshotOps = true
-		case i == 2: // regular state machine, membership changes through the API
-			cfg.membership, cfg.sessions, cfg.snapshotOps = true, true, true
-		case i == 3: // regular state machine, non-voting replica from the start, no restart
-			cfg.quiesce, cfg.notifyCommit, cfg.queryLog = true, true, true
-		default:
-			d := subRand(seed, 2)
-			cfg.onDisk = d.Chance(1, 3)
-			if cfg.onDisk {
-				cfg.concurrent = false
-				if cfg.snapEvery == 0 {
-					cfg.snapEvery = 20
-				}
-			}
-			cfg.notifyCommit = d.Bool()
-			cfg.sessions = !cfg.onDisk && d.Bool()
-			cfg.lateJoin = d.Bool()
-			cfg.membership = d.Chance(1, 3)
-			cfg.snapshotOps = d.Bool()
-			cfg.queryLog = d.Bool()
-			cfg.quiesce = d.Chance(1, 4)
-		}
-		if cfg.quiesce {
-			cfg.duration += 500 * time.Millisecond // the idle period
-		}
-		// about 350 operations per history in the quick tier, 2000 in thorough
-		target := 350
-		if a.Tier == "thorough" {
-			target = 2000
-		}
-		cfg.paceMs = int(dur/time.Millisecond) * cfg.clients / target
-		if cfg.paceMs > 8 {
-			cfg.paceMs -= 8 // an operation itself takes a few ms
-		}
-		res, err := runHistory(cfg)
-		if err != nil {
-			fmt.Fprintf(os.Stderr, "c01 gen: history %s: %v\n", cfg.name, err)
-			os.Exit(1)
-		}
-		w.Printf("%s\n", caseLine(cfg.name, res))
-		info.Printf("%s timing=%s dims=%s concurrent=%v slow=%d/%v checkQuorum=%v clients=%d keys=%d nonvoting=%v ops=%d log=%d net(sent,dropped,delayed,delivered)=%v notes=%v smcheck=%q mon=%q finalOK=%v\n",
-			cfg.name, res.timing, dims(cfg), cfg.concurrent, cfg.slowReplica, cfg.slowDwell, cfg.checkQuorum, cfg.clients, cfg.keys, cfg.nonVoting, len(res.ops), len(res.log), res.net, res.notes, res.smcheck, res.mon, res.finalOK)
+	skips := vh.Create(filepath.Join(filepath.Dir(a.Cases), "gen_skipped.txt"))
+	defer skips.Close()
+	exe, err := os.Executable()
+	if err != nil {
+		fmt.Fprintln(os.Stderr, "c01 gen:", err)
+		os.Exit(1)
 	}
+	limit := 150 * time.Second
+	if a.Tier == "thorough" {
+		limit = 400 * time.Second
+	}
+	skipped := 0
+	for i := 0; i < n; i++ {
+		name := fmt.Sprintf("h%d_%d", a.Seed, i)
+		cf := filepath.Join(a.Out, fmt.Sprintf("hist%d.case", i))
+		_ = os.Remove(cf)
+		ctx, cancel := context.WithTimeout(context.Background(), limit)
+		cmd := exec.CommandContext(ctx, exe, "hist", "-seed", fmt.Sprint(a.Seed), "-tier", a.Tier, "-n", fmt.Sprint(i+1), "-out", a.Out, "-cases", cf)
+		var eb bytes.Buffer
+		cmd.Stderr = &eb
+		runErr := cmd.Run()
+		cancel()
+		if b, e := os.ReadFile(filepath.Join(a.Out, fmt.Sprintf("hist%d.info", i))); e == nil && runErr == nil {
+			info.Printf("%s", string(b))
+		}
+		if runErr == nil {
+			if b, e := os.ReadFile(cf); e == nil && len(b) > 0 {
+				w.Printf("%s", string(b))
+				continue
+			}
+			runErr = errors.New("no case written")
+		}
+		kind, first := classifyDeath(eb.String())
+		switch {
+		case kind == "harness":
+			fmt.Fprintf(os.Stderr, "c01 gen: history %s: the harness itself panicked\n%s\n", name, eb.String())
+			os.Exit(1)
+		case kind == "panic" && monitoredPanic.MatchString(first):
+			// the library noticed a broken invariant of a monitored property: a violation
+			w.Printf("%s HIST log=- final=? smcheck=ok mon=%s nev=0\n", name, strings.ReplaceAll("library "+first, " ", "_"))
+			info.Printf("%s DIED %s\n%s\n", name, first, eb.String())
+		default:
+			skipped++
+			what := "library-panic: " + first
+			if kind == "error" {
+				what = "history-aborted: " + first
+			} else if kind == "killed" {
+				what = fmt.Sprintf("history-killed: %v", runErr)
+			}
+			skips.Printf("%s %s\n", name, what)
+			info.Printf("%s SKIPPED %s\n%s\n", name, what, eb.String())
+			fmt.Fprintf(os.Stderr, "c01 gen: history %s skipped: %s\n", name, what)
+		}
+	}
+	if 2*skipped > n {
+		fmt.Fprintf(os.Stderr, "c01 gen: %d of %d histories could not be run (see gen_info.txt)\n", skipped, n)
+		info.Close()
+		if b, e := os.ReadFile(a.Out + "/gen_info.txt"); e == nil {
+			os.Stderr.Write(b[max(0, len(b)-6000):])
+		}
+		os.Exit(1)
+	}
+}
+
+// testPanic stands for a goroutine of the library in the self-test.
+func testPanic(msg string) {
+	time.Sleep(300 * time.Millisecond)
+	quietLogger{}.Panicf("%s", msg)
+}
+
+// histChild runs history number a.N-1 and writes its case and its line of gen_info.
+func histChild(a vh.Args) {
+	i := a.N - 1
+	cfg := histConfig(a, i)
+	// self-test of the classification in gen: C01_TEST_PANIC="<index>:<message>" makes
+	// that history die the way a library goroutine does
+	if t := os.Getenv("C01_TEST_PANIC"); strings.HasPrefix(t, fmt.Sprint(i)+":") {
+		go testPanic(strings.SplitN(t, ":", 2)[1])
+	}
+	res, err := runHistory(cfg)
+	if err != nil {
+		fmt.Fprintf(os.Stderr, "c01 gen: history %s: %v\n", cfg.name, err)
+		os.Exit(1)
+	}
+	info := vh.Create(filepath.Join(a.Out, fmt.Sprintf("hist%d.info", i)))
+	info.Printf("%s timing=%s dims=%s concurrent=%v slow=%d/%v checkQuorum=%v clients=%d keys=%d nonvoting=%v ops=%d log=%d net(sent,dropped,delayed,delivered)=%v notes=%v smcheck=%q mon=%q finalOK=%v\n",
+		cfg.name, res.timing, dims(cfg), cfg.concurrent, cfg.slowReplica, cfg.slowDwell, cfg.checkQuorum, cfg.clients, cfg.keys, cfg.nonVoting, len(res.ops), len(res.log), res.net, res.notes, res.smcheck, res.mon, res.finalOK)
+	info.Close()
+	w := vh.Create(a.Cases)
+	w.Printf("%s\n", caseLine(cfg.name, res))
+	w.Close()
 }
 
 func dims(c histCfg) string {
@@ -192,6 +336,16 @@ func run(a vh.Args) {
 	obs := vh.Create(a.Out + "/impl.obs")
 	defer obs.Close()
 	ct := codes()
+	// histories gen could not run (a panic on a library goroutine that is not about a
+	// monitored property, or the cluster did not come up in time)
+	if b, err := os.ReadFile(filepath.Join(filepath.Dir(a.Cases), "gen_skipped.txt")); err == nil {
+		for _, l := range strings.Split(strings.TrimSpace(string(b)), "\n") {
+			if f := strings.SplitN(l, " ", 2); len(f) == 2 {
+				st.Count("histories_skipped")
+				st.Notes["skipped "+f[0]] = f[1]
+			}
+		}
+	}
 	budget := 2000000
 	if a.Tier == "thorough" {
 		budget = 20000000
@@ -309,6 +463,10 @@ func main() {
 	switch a.Mode {
 	case "gen":
 		gen(a)
+	case "hist":
+		histChild(a)
+	case "demo-export-on-joiner":
+		demoExportOnJoiner()
 	case "run":
 		run(a)
 	default:
